@@ -131,9 +131,9 @@ Proof.
     match goal with |- context[branch_ends ?G s ends] =>
       destruct (branch_ends_unknown ends G s t H) as [g' [er E]]; auto;
       [|rewrite E; auto] end.
+    match goal with |- has_node (set_h_prebranch _ ?G1) t = false => change (has_node G1 t = false) end.
     destruct (alist_get s (g_nodes g)) as [n|]; [|assumption].
-    dif; [|assumption]. unfold has_node in *; simpl. fold (has_node (set_typed s g) t).
-    rewrite has_node_set_typed. assumption.
+    dif; [rewrite has_node_set_typed|]; assumption.
 Qed.
 
 (* ================================================================== D2. compile-time checks *)
@@ -156,7 +156,7 @@ Theorem compile_rejects : forall g o, gill g o -> is_err (snd (g_compile fixed g
 Proof.
   intros g o I. unfold g_compile. destruct (g_err g); [simpl; auto|]. simpl.
   fold (dag_mode g o).
-  repeat (dif; [simpl; auto|]). exfalso.
+  repeat (dif; [solve [simpl; auto]|]). exfalso.
   destruct I as [H|H|H|H|H|H1 H2|H|H1 H2|H1 H2].
   - rewrite H in *. discriminate.
   - rewrite H in *. discriminate.
@@ -184,33 +184,31 @@ Inductive cviolation (c : cstate) : ccall -> Prop :=
 | CV_branch_several_previous : forall items, c_start_node c = None -> cviolation c (CBranch items).
 
 Lemma c_append_rejects : forall c nk key ns,
-  (forall g', g_state g' = g_state (c_g c) -> has_node g' = has_node (c_g c) -> g_cmp g' = g_cmp (c_g c) ->
-     g_err g' = g_err (c_g c) -> g_compiled g' = g_compiled (c_g c) ->
-     is_err (snd (g_add_node g' (match key with Some k => k | None => "node_" +++ nat_str (c_idx c) end)
-                             nk ns (is_some key) false))) ->
+  is_err (snd (g_add_node (c_g c) (match key with Some k => k | None => "node_" +++ nat_str (c_idx c) end)
+                          nk ns (is_some key) false)) ->
   c_err (c_append c nk key ns) <> None.
 Proof.
   intros c nk key ns H. unfold c_append. destruct (c_err c) eqn:E; [congruence|].
   dif; [apply c_report_some|].
-  specialize (H (c_g (c_bump c)) eq_refl eq_refl eq_refl eq_refl eq_refl).
-  destruct (g_add_node (c_g (c_bump c)) _ nk ns (is_some key) false) as [g1 o].
+  change (c_g (c_bump c)) with (c_g c).
+  destruct (g_add_node (c_g c) _ nk ns (is_some key) false) as [g1 o].
   destruct H as [e He]; simpl in He; subst o. simpl. apply c_report_some.
 Qed.
 
 Theorem chain_rejects : forall c call,
   cviolation c call -> c_err (fst (cstep fixed c call)) <> None.
 Proof.
-  intros c call V. destruct V; simpl.
-  - apply c_append_rejects. intros g' _ _ _ _ _. apply add_node_rejects; auto.
-  - apply c_append_rejects. intros g' _ HN _ _ _. apply add_node_rejects. rewrite HN. auto.
-  - apply c_append_rejects. intros g' HS _ _ _ _. apply add_node_rejects. rewrite HS. auto.
+  intros c call V. destruct V; cbn [cstep fst].
+  - apply c_append_rejects. apply add_node_rejects; auto.
+  - apply c_append_rejects. apply add_node_rejects; auto.
+  - apply c_append_rejects. apply add_node_rejects; auto.
   - unfold c_parallel. dif; [apply c_report_some|].
     apply Nat.leb_le in H. rewrite H. apply c_report_some.
-  - unfold c_parallel. rewrite H. apply c_report_some.
+  - unfold c_parallel. dif; [apply c_report_some|]. unfold citem in *. congruence.
   - unfold c_parallel. repeat (dif; [apply c_report_some|]). rewrite H. apply c_report_some.
   - unfold c_branch. dif; [apply c_report_some|].
     destruct items as [|i1 [|i2 rest]]; try apply c_report_some. simpl in H. lia.
-  - unfold c_branch. rewrite H. apply c_report_some.
+  - unfold c_branch. dif; [apply c_report_some|]. unfold citem in *. congruence.
   - unfold c_branch. dif; [apply c_report_some|].
     destruct items as [|i1 [|i2 rest]]; try apply c_report_some. rewrite H. apply c_report_some.
 Qed.
